@@ -226,7 +226,7 @@ def _validate(g, pr, rnd, k=2):
     if not eqs:
         return 0, []
     for _ in range(k):
-        env = sched.sample_env(pr.inputs, list(pr.assumptions) + list(pr.pc), rnd, tries=60)
+        env = sched.sample_env(pr.inputs, list(pr.assumptions) + list(pr.pc), rnd, tries=60, hints=getattr(pr, 'hints', None))
         if env is None:
             return n, mism
         cc = sched.ConcCtx(env)
